@@ -65,6 +65,8 @@ struct xshared {
   uint64_t max_cp, max_preempt, heap_peak_max, heap_limit_used, nstates, states_capped;
   uint64_t cp_by_kind[8];
   uint64_t ev_total[16];
+  uint64_t ev_max[16];            /* largest count in one execution */
+  uint64_t scan_found_max;        /* largest x-scan-candidate + x-scan-known in one execution */
   volatile uint64_t next_item;
   uint64_t nitems;
   uint64_t table[STATE_SIZE];
@@ -723,8 +725,12 @@ account(const struct vs_config *cfg, const struct result *r)
   X->cp_total += ncp;
   for (i = 0; i < ncp; i++)
     X->cp_by_kind[vs_rec->cp[i].kind & 7]++;
-  for (i = 0; i < 16; i++)
+  for (i = 0; i < 16; i++) {
     X->ev_total[i] += vs_rec->ev_count[i];
+    if (vs_rec->ev_count[i] > X->ev_max[i]) X->ev_max[i] = vs_rec->ev_count[i];
+  }
+  if ((uint64_t)vs_rec->ev_count[8] + vs_rec->ev_count[9] > X->scan_found_max)
+    X->scan_found_max = (uint64_t)vs_rec->ev_count[8] + vs_rec->ev_count[9];
   if (ncp > X->max_cp) X->max_cp = ncp;
   if (vs_rec->preemptions > X->max_preempt) X->max_preempt = vs_rec->preemptions;
   if (vs_rec->heap_peak > X->heap_peak_max) X->heap_peak_max = vs_rec->heap_peak;
@@ -1298,7 +1304,9 @@ main(int argc, char **argv)
     for (i = 0; i < 7; i++) fprintf(out, "%s%llu", i ? "," : "", (unsigned long long)X->cp_by_kind[i]);
     fputs("],\"events\":{", out);
     for (i = 0; i < 16; i++) fprintf(out, "%s\"%s\":%llu", i ? "," : "", vs_event_names[i], (unsigned long long)X->ev_total[i]);
-    fprintf(out, "},\"classes_capped\":%s,\"classes\":[", X->ncls >= MAXCLS ? "true" : "false");
+    fputs("},\"events_max\":{", out);
+    for (i = 0; i < 16; i++) fprintf(out, "%s\"%s\":%llu", i ? "," : "", vs_event_names[i], (unsigned long long)X->ev_max[i]);
+    fprintf(out, "},\"scan_found_max\":%llu,\"classes_capped\":%s,\"classes\":[", (unsigned long long)X->scan_found_max, X->ncls >= MAXCLS ? "true" : "false");
     for (i = 0; i < X->ncls; i++) {
       struct xclass *k = &X->cls[i];
       fprintf(out, "%s{\"kind\":\"%s\",\"code\":%d,\"stdout_len\":%llu,\"stdout_hash\":\"%016llx\","
